@@ -224,6 +224,84 @@ func c20Watch(run *vfRun) {
 	}()
 }
 
+// c20EventStorm (own instance and files, runs next to the rounds): tens of thousands of content-preserving events (chmod
+// toggles alternating with a one-byte overwrite of the first byte by itself) hit each watched file within ~100 ms — far
+// more than the kernel's inotify queue holds (fs.inotify.max_queued_events = 16384), so once the backlog has drained the
+// watcher is handed a queue-overflow error. The watch must survive that: for `span` afterwards a new version is written
+// every 400 ms and each must come into force. These versions are written IN PLACE (same inode): while the queue is full
+// the kernel drops new events, and a dropped rename event would leave any inotify-based watcher on the replaced inode —
+// that loss is the kernel's, not the watcher's, and is deliberately not provoked here.
+func c20EventStorm(run *vfRun, w *vfWorld, span time.Duration) {
+	htp := filepath.Join(w.Dir, "htpasswd-storm")
+	emf := filepath.Join(w.Dir, "emails-storm")
+	_ = os.WriteFile(htp, []byte(c20Htpasswd(1)), 0o600)
+	_ = os.WriteFile(emf, []byte(c20Emails(1)), 0o600)
+	p, err := w.NewProxy("--htpasswd-file="+htp, "--authenticated-emails-file="+emf, "--email-domain=nomatch.invalid")
+	if err != nil {
+		run.Inconclusive("rig: event-storm instance: " + vfTrunc(err.Error(), 60))
+		return
+	}
+	type target struct {
+		name, path string
+		content    func(int) string
+		visible    func(v int) bool
+	}
+	targets := []target{
+		{"htpasswd", htp, c20Htpasswd, func(v int) bool { return p.P.basicAuthValidator.Validate("vuser", "pw-"+strconv.Itoa(v)) }},
+		{"emails", emf, c20Emails, func(v int) bool { return p.P.Validator(fmt.Sprintf("vuser-%d@example.com", v)) }},
+	}
+	var wg sync.WaitGroup
+	for _, tg := range targets {
+		wg.Add(1)
+		go func(tg target) {
+			defer wg.Done()
+			events := 0
+			if f, err := os.OpenFile(tg.path, os.O_WRONLY, 0); err == nil {
+				first := []byte{tg.content(1)[0]}
+				for i := 0; i < 30000; i++ {
+					_ = os.Chmod(tg.path, []os.FileMode{0o600, 0o640}[i%2])
+					_, _ = f.WriteAt(first, 0)
+					events += 2
+				}
+				f.Close()
+			}
+			run.Count(tg.name+"_event_storm_events", int64(events))
+			t0 := time.Now()
+			written := 0
+			var maxLat time.Duration
+			for k := 0; time.Since(t0) < span; k++ {
+				v := []int{5, 7}[k%2]
+				if err := os.WriteFile(tg.path, []byte(tg.content(v)), 0o600); err != nil {
+					return
+				}
+				written++
+				vis := false
+				tw := time.Now()
+				for tries := 0; tries < 2000; tries++ { // up to ~10 s
+					if tg.visible(v) {
+						vis = true
+						break
+					}
+					time.Sleep(5 * time.Millisecond)
+				}
+				if !vis {
+					run.Violation("c20:watch-lost-after-event-storm", fmt.Sprintf("%s: %d content-preserving events arrived in one burst (inotify queue overflow); %v later in-place rewrite #%d (version %d) never came into force (10 s): the file is no longer watched", tg.name, events, time.Since(t0).Round(time.Second), written, v),
+						map[string]interface{}{"flags": p.Flags, "file": tg.name, "events": events, "replacements_that_were_loaded": written - 1})
+					return
+				}
+				if d := time.Since(tw); d > maxLat {
+					maxLat = d
+				}
+				time.Sleep(400 * time.Millisecond)
+			}
+			fmt.Printf("NOTE C20 event storm: %s: %d events, %d in-place rewrites over %v afterwards all loaded, slowest after %v\n", tg.name, events, written, span, maxLat.Round(time.Millisecond))
+			run.Eval(fmt.Sprintf("%s|event storm (%d events), %d replacements over %v afterwards|all loaded", tg.name, events, written, span))
+			run.Count(tg.name+"_replacements_loaded_after_event_storm", int64(written))
+		}(tg)
+	}
+	wg.Wait()
+}
+
 func TestVerif_C20(t *testing.T) {
 	run := vfNewRun(t, "C20", "exploration")
 	c20Watch(run)
@@ -232,11 +310,14 @@ func TestVerif_C20(t *testing.T) {
 	run.Assume("fsnotify delivers events for atomic renames (completion of a reload is unobservable: writes are open-ended)", "porcupine v1.3.0 for the direct-call histories")
 	w := vfNewWorld(t)
 	defer w.Close()
+	stormDone := make(chan struct{})
+	go func() { defer close(stormDone); c20EventStorm(run, w, time.Duration(run.Env.Pick(25, 90))*time.Second) }()
 	rounds := run.Env.Pick(3, 20)
 	for r := 0; r < rounds; r++ {
 		nVal := []int{2, 4, 8, 16}[(r+int(run.Env.Seed))%4]
 		c20Round(run, w, r, nVal)
 	}
+	<-stormDone
 	// merge the package-basic half
 	if b, err := os.ReadFile(filepath.Join(run.Env.WorkDir, "c20_basic.json")); err == nil {
 		var rep map[string]interface{}
